@@ -4,7 +4,8 @@ C02 — entries read back with exactly the property values they were written wit
 import JubakoModel.Model.DirWriter
 import JubakoModel.Lemmas.DirCodec
 import JubakoModel.Lemmas.DirFile
-import JubakoModel.Lemmas.Funcs
+import JubakoModel.Lemmas.FuncsBytes
+import JubakoModel.Lemmas.FuncsDir
 
 namespace Jubako
 
